@@ -42,4 +42,26 @@ vpv_native!(c43_word_at_position, "C43/navigation::word_at_position/no-panic; a 
         None => true,
     })
 });
-vpv_replay_table!(c43_byte_offset_to_position, c43_word_at_position);
+
+// span_to_location: every reported range lies within the document — start <= end, each line exists, each column is at most the number of characters
+// of its line (native enumeration: the same documents x every span whose ends are character boundaries)
+vpv_native!(c43_span_to_location, "C43/navigation::span_to_location/the reported range lies within the document: start <= end, lines exist, columns <= characters of the line (native enumeration: 7382 documents x every span on character boundaries)", {
+    let uri = Url::parse("file:///t.vpl").unwrap();
+    let mut ok = true; let mut shown = 0;
+    for d in docs() {
+        let mut cuts: Vec<usize> = d.char_indices().map(|(i, _)| i).collect(); cuts.push(d.len());
+        // line lengths in characters; a document ending in LF has a last, empty line
+        let lines: Vec<usize> = d.split('\n').map(|l| l.chars().count()).collect();
+        for &a in &cuts { for &b in &cuts { if a <= b {
+            let good = vpv_enum_try(|| format!("document={:?} span={}..{}", d, a, b), || {
+                let loc = span_to_location(&d, Span { start: a, end: b }, &uri);
+                let (s, e) = (loc.range.start, loc.range.end);
+                let inside = |p: Position| (p.line as usize) < lines.len() && (p.character as usize) <= lines[p.line as usize];
+                inside(s) && inside(e) && (s.line, s.character) <= (e.line, e.character)
+            });
+            if !good { ok = false; shown += 1; if shown >= 3 { return false; } }
+        } } }
+    }
+    ok
+});
+vpv_replay_table!(c43_byte_offset_to_position, c43_word_at_position, c43_span_to_location);
